@@ -19,6 +19,7 @@ DID_KINDS = S(['did.Create', 'did.Update', 'did.Deactivate'])
 PN_KINDS = S(['pnft.CreateDenom', 'pnft.UpdateDenom', 'pnft.DeleteDenom', 'pnft.TransferDenom', 'pnft.Mint', 'pnft.Transfer', 'pnft.Burn'])
 ALL_NEXT = S(['BeginBlock', 'RestartBegin', 'ExportImportBegin'])
 ALL_NEXT_R = ALL_NEXT | S(['Redeliver'])
+ALL_NEXT_N = ALL_NEXT_R | S(['Noise', 'Resubmit'])      # + mempool / gas-estimation noise and re-submission of earlier messages
 
 
 def mk(**kw):
@@ -78,7 +79,7 @@ def preset(pid, tier):
             props=['P_C01', 'P_C08', 'P_C10'], invs=['I_C01'],
             tour=aol(Accts=S(['a1', 'a2']), Topics=S(['t1']), ViewTopics=S(['t1']), Descs=S(['x']), Mons=S(['m']), FeePayers=S(['none', 'a1']), MaxDeliver=4 if q else 5, MaxHeight=2),
             sims=[sim(aol(Accts=S(['a1', 'a2', 'a3', 'a4']), Topics=S(['t1', 't2', 't3']), ViewTopics=S(['t1', 't2', 't3']), RecKeys=S(['k1', 'k2', '']), RecVals=S(['v1', 'v2', '']),
-                          FeePayers=S(['none', 'a1', 'a3']), MaxDeliver=40, MaxHeight=8, NextKinds=ALL_NEXT_R, FailKeep=40), 120 if q else 2000, 50),
+                          FeePayers=S(['none', 'a1', 'a3']), MaxDeliver=40, MaxHeight=8, NextKinds=ALL_NEXT_N, FailKeep=40), 120 if q else 2000, 50),
                   sim(aol(MaxDeliver=12, MaxHeight=6, NextKinds=ALL_NEXT, FailKeep=10), 80 if q else 1500, 25, genesis=dict(mint=True)),
                   # account a2 spells its address in upper case in every message field (owner, writer, fee payer): the same account
                   sim(aol(FeePayers=S(['none', 'a2']), MaxDeliver=14, MaxHeight=5, NextKinds=ALL_NEXT, FailKeep=10), 30 if q else 500, 25, genesis=dict(upper=['a2']))])
@@ -94,7 +95,7 @@ def preset(pid, tier):
                   # two topics of one owner whose names differ only in letter case: a writer of one is not a writer of the other
                   dict(constants=aol(Accts=S(['a1', 'a2']), Topics=S(['t1', 'tc']), ViewTopics=S(['t1', 'tc']), RecVals=S(['v1']), Descs=S(['x']), Mons=S(['m']), MaxDeliver=3 if q else 4, MaxHeight=2))],
             sims=[sim(aol(Accts=S(['a1', 'a2', 'a3', 'a4']), SignerSets='all', FeePayers=S(['none', 'a1', 'a2', 'a3']), ExecOn=True,
-                          Kinds=AOL_KINDS | S(['authz.Grant', 'authz.Revoke']), Fees=S([0, 1]), MaxDeliver=40, MaxHeight=6, FailKeep=8), 150 if q else 3000, 40),
+                          Kinds=AOL_KINDS | S(['authz.Grant', 'authz.Revoke']), Fees=S([0, 1]), MaxDeliver=40, MaxHeight=6, FailKeep=8, NextKinds=ALL_NEXT_N), 150 if q else 3000, 40),
                   # three-message transactions over one topic: work done by the first messages and rolled back by a failing last one must leave no authorisation behind
                   sim(aol(Accts=S(['a1', 'a2', 'a3']), Topics=S(['t1']), ViewTopics=S(['t1']), RecVals=S(['v1']), MaxTxLen=3, MaxDeliver=25, MaxHeight=5, FailKeep=2, SimSample=36),
                       60 if q else 1200, 30)])
@@ -151,7 +152,7 @@ def preset(pid, tier):
         if pid == 'C04':
             # clients estimate gas by simulating the transaction they then broadcast; accepted messages are submitted again later in fresh transactions
             again = did(Accts=S(['a1', 'a2']), Dids=S(['d1', 'dc']), ViewDids=S(['d1', 'dc']), DocNames=S(['A1', 'A2']), Keys=S(['k1', 'k2']), VmNames=S(['v1']), NearProofs=True,
-                        MaxDeliver=24, MaxHeight=6, NextKinds=ALL_NEXT_R | S(['Resubmit']), FailKeep=25)
+                        MaxDeliver=24, MaxHeight=6, NextKinds=ALL_NEXT_N, FailKeep=25)
             sims.append(sim(again, 40 if q else 600, 40, genesis=dict(simfirst=True)))
             sims.append(sim(again, 20 if q else 300, 40))
         if pid == 'C05':
@@ -188,7 +189,7 @@ def preset(pid, tier):
                      Kinds=S(['pnft.CreateDenom', 'pnft.Mint', 'pnft.Transfer', 'pnft.Burn']), MaxDeliver=20, MaxHeight=4, FailKeep=20, Deviations=S(['nulids']))
         # dense traffic over aliasing-prone identifier pairs: a prefix pair ("a", "ab") and a case pair ("a", "A"), one token id, two accounts
         pair1 = pn(Accts=S(['a1', 'a2']), DenomIds=S(['n1', 'n2']), TokenIds=S(['i1']), ViewDenoms=S(['n1', 'n2']), ViewTokens=S(['i1']), MaxDeliver=30, MaxHeight=6,
-                   NextKinds=ALL_NEXT, FailKeep=30)
+                   NextKinds=ALL_NEXT_N, FailKeep=30)
         pair2 = pn(Accts=S(['a1', 'a2']), DenomIds=S(['n1', 'nc']), TokenIds=S(['i1', 'ic']), ViewDenoms=S(['n1', 'nc']), ViewTokens=S(['i1', 'ic']), MaxDeliver=30, MaxHeight=6,
                    NextKinds=ALL_NEXT, FailKeep=30)
         # 150 bulk denoms and 150 bulk tokens in one denom, all owned by a4: listings beyond any default page size; a4 and the bulk denom are in the alphabet
